@@ -24,8 +24,7 @@ theorem accept_sound (id : Nat) (qname : Bytes) (qtype qclass : Nat) (d : Bytes)
       mr1.question d .theQuestion = (.ok (.owned q), mr2) ∧ q.qtype = qtype ∧ q.qclass = qclass ∧
       nameEqStr q.qname qname = true := by
   unfold udpAccept at h
-  unfold Generated.std_udp_id_reject Generated.std_udp_question_match at h
-  simp only [bne_iff_ne] at h
+  simp only [std_udp_id_reject_eq, std_udp_question_match_eq, bne_iff_ne] at h
   split at h <;> try (simp at h; done)
   rename_i mr hn
   split at h <;> try (simp at h; done)
@@ -124,7 +123,8 @@ dropped or weakened in either loop, or a comparison changed in only one of them,
 theorem async_filter_is_std :
     (∀ hid mid, Generated.async_udp_id_reject hid mid = Generated.std_udp_id_reject hid mid) ∧
     (∀ t c n, Generated.async_udp_question_match t c n = Generated.std_udp_question_match t c n) :=
-  ⟨fun _ _ => rfl, fun _ _ _ => rfl⟩
+  ⟨fun a b => by rw [async_udp_id_reject_eq, std_udp_id_reject_eq],
+   fun t c n => by rw [async_udp_question_match_eq, std_udp_question_match_eq]⟩
 
 /-- what the source's filter says: a datagram is passed over iff its ID differs; it is accepted iff type,
     class and name all match -/
